@@ -385,3 +385,33 @@ def _(v):
         except Exception as ex:
             bad.append((npr, repr(ex)[:200]))
     v.prove("same_equations_for_every_presence_pattern", not bad, detail=repr(bad[:2]))
+    # the same salt written in the FORMATION direction (solid on the product side, K = 1/Ksp): the equation for the absent solid is again
+    # [solid]**|nu| = small (a positive power of the solid's concentration), not its reciprocal
+    form = EqSystem([Equilibrium({"Na+": 1, "Cl-": 1}, {"NaCl": 1}, sympy.Rational(1, 37)), Equilibrium({"Ag+": 2, "Cl-": 2}, {"AgCl": 2}, sympy.Integer(5000) ** 2)], subs)
+    rows = {npr: [list(map(int, r)) for r in form.stoichs(npr).tolist()] for npr in ((), (0,), (1,), (0, 1))}
+    want = {(): [[-1, -1, 0, 0, 0, 0, 0], [0, -2, -2, 0, 0, 0, 0]], (0,): [[0, 0, 0, 0, 0, 1, 0], [0, -2, -2, 0, 0, 0, 0]], (1,): [[-1, -1, 0, 0, 0, 0, 0], [0, 0, 0, 0, 0, 0, 2]],
+            (0, 1): [[0, 0, 0, 0, 0, 1, 0], [0, 0, 0, 0, 0, 0, 2]]}
+    v.prove("absent_solid_equation_in_the_formation_direction", rows == want, detail=repr({k: r for k, r in rows.items() if r != want[k]}))
+
+
+@harness("C08", "single_equilibrium.integer_inputs", functions=["chempy._equilibrium:solve_equilibrium"], kind="data")
+def _(v):
+    """the single-equilibrium solver for concentrations given as integers (a list of ints, an integer array): the answer is the same as for the
+    same numbers as floats -- Q = K, spectators untouched, element totals kept -- not the floats cut back to integers; the caller's array is
+    not written to"""
+    import numpy as np
+    from chempy._equilibrium import solve_equilibrium
+    stoich, K = (-1, -1, 1, 1, 0), 0.5
+    ref = np.asarray(solve_equilibrium([3.0, 2.0, 1.0, 0.0, 7.0], stoich, K), dtype=float)
+    q = lambda c: c[2] * c[3] / (c[0] * c[1])
+    arr = np.array([3, 2, 1, 0, 7])
+    bad = []
+    for label, c0 in (("list_of_ints", [3, 2, 1, 0, 7]), ("tuple_of_ints", (3, 2, 1, 0, 7)), ("int_array", arr)):
+        try:
+            got = np.asarray(solve_equilibrium(c0, stoich, K), dtype=float)
+            if not (np.allclose(got, ref, rtol=1e-12) and abs(q(got) / K - 1) < 1e-6 and got[4] == 7):
+                bad.append((label, got.tolist()))
+        except Exception as ex:
+            bad.append((label, repr(ex)[:80]))
+    v.prove("same_answer_as_for_floats", not bad and abs(q(ref) / K - 1) < 1e-6, detail=repr(bad))
+    v.prove("callers_array_not_written_to", arr.tolist() == [3, 2, 1, 0, 7])
